@@ -5,6 +5,7 @@ import (
 	"os"
 	"runtime/debug"
 	"sort"
+	"strings"
 	"sync"
 	"time"
 
@@ -242,6 +243,15 @@ func (w *Worker) runPath(prefix []int32, concrete []uint64) (st *State, status, 
 					}()
 					st.failure("uncaught "+describePanic(e.V), nil, "raised in "+e.Where)
 				}()
+			case engineCrash:
+				st := e.Stack
+				if i := strings.Index(st, "panic("); i >= 0 {
+					st = st[i:]
+				}
+				if len(st) > 1500 {
+					st = st[:1500]
+				}
+				status, detail = "engine-crash", e.Msg+" in "+e.Fn+"\n"+st
 			default:
 				status, detail = "engine-crash", fmt.Sprintf("%v\n%s", r, debug.Stack())
 			}
@@ -263,7 +273,11 @@ func (w *Worker) runPath(prefix []int32, concrete []uint64) (st *State, status, 
 	ex.Paths[status]++
 	if status != "ok" && status != "assume" {
 		d := detail
-		if len(d) > 300 {
+		if status == "engine-crash" {
+			if i := strings.Index(d, "panic({"); i >= 0 && len(d) > i+1600 {
+				d = d[:60] + " ... " + d[i:i+1600]
+			}
+		} else if len(d) > 300 {
 			d = d[:300]
 		}
 		ex.PathDetails[status+": "+d]++
